@@ -307,6 +307,9 @@ def render(body, kind, pad=False):
         r.emit(2, "z = [(lambda: q) for q in ()]")
     # a local bound to None: a context whose manager object is (momentarily) unknown must not be named after it
     r.emit(1, "z = None")
+    # locals whose comparison is hostile: one that claims to equal everything (unittest.mock.ANY), one whose == gives an
+    # array-like result without a truth value; the analysis is about identity and must never compare frame locals
+    r.emit(1, "zq = rt.anything; zr = rt.arraylike")
     if kind == "agen" and not has(body, ("susp",)):
         # make sure it is an async generator even without a yield in the body
         r.emit(1, "if rt.never: yield None")
@@ -333,8 +336,41 @@ def trap(tag):
 MAXDEC = 7
 
 
+class _Anything(object):
+    def __eq__(s, other):
+        return True
+
+    def __ne__(s, other):
+        return False
+
+    __hash__ = object.__hash__
+
+    def __repr__(s):
+        return "<ANY>"
+
+
+class _NoTruth(object):
+    def __bool__(s):
+        raise ValueError("The truth value of an array with more than one element is ambiguous")
+
+
+class _ArrayLike(object):
+    def __eq__(s, other):
+        return _NoTruth()
+
+    def __ne__(s, other):
+        return _NoTruth()
+
+    __hash__ = object.__hash__
+
+    def __repr__(s):
+        return "<array>"
+
+
 class Rt(object):
     never = False
+    anything = _Anything()
+    arraylike = _ArrayLike()
 
     def __init__(self, prefix, observer=None):
         self.prefix = prefix
